@@ -35,6 +35,13 @@ SCHEMA = {
     "aten.index_select": ["t", "a", "t"], "aten.gelu": ["t"], "aten.sigmoid": ["t"], "aten.tanh": ["t"], "aten.silu": ["t"],
     "aten.unbind": ["t"], "aten.chunk": ["t"], "aten.alias": ["t"], "aten.movedim": ["t"], "aten.matmul": ["t", "t"],
     "aten.addmm": ["t", "t", "t"], "aten.linear": ["t", "t", "t"], "aten.dot": ["t", "t"], "aten.masked_fill": ["t", "t", "ts"],
+    "aten.constant_pad_nd": ["t", "a", "a"], "aten.fill": ["t", "ts"], "aten.fill_": ["t", "ts"], "aten.index_fill": ["t", "a", "t", "ts"],
+    "aten.index_put": ["t", "a", "t"], "aten.scatter": ["t", "a", "t", "ts"], "aten.masked_scatter": ["t", "t", "t"], "aten.full_like": ["t", "a"],
+    "aten.ones_like": ["t"], "aten.clamp": ["t", "a", "a"], "aten.clamp_min": ["t", "a"], "aten.clamp_max": ["t", "a"], "aten.hardtanh": ["t", "a", "a"],
+    "aten.pow": ["ts", "ts"], "aten.exp": ["t"], "aten.log": ["t"], "aten.sqrt": ["t"], "aten.rsqrt": ["t"], "aten.reciprocal": ["t"], "aten.round": ["t"],
+    "aten.floor": ["t"], "aten.ceil": ["t"], "aten.trunc": ["t"], "aten.cumsum": ["t", "a"], "aten.var": ["t"], "aten.std": ["t"], "aten.norm": ["t"],
+    "aten.softplus": ["t"], "aten.erf": ["t"], "aten.native_layer_norm": ["t", "a", "t", "t", "a"], "aten.layer_norm": ["t", "a", "t", "t", "a"],
+    "aten.convolution": ["t", "t", "t"], "aten.conv2d": ["t", "t", "t"], "aten.log_softmax": ["t", "a"], "aten._log_softmax": ["t", "a", "a"], "aten.sign": ["t"],
 }
 
 
